@@ -392,6 +392,7 @@ class Mod(object):
         self.imports = {}
         self._imports()
         self.normal = {"inlined": 0, "propagated": 0, "renamed": 0}
+        self.const_lookup = getattr(repo, "new_constants_of", None)
         if getattr(repo, "normalise", True):
             try:
                 from . import normal
@@ -538,6 +539,37 @@ class Repo(object):
             raise AnalysisError(rule, "module %s does not parse: %s" % (name, e))
         self._mods[name] = m
         return m
+
+    def new_constants_of(self, name):
+        """name -> value expression of the module-level constants of module ``name`` that are new with respect to the pinned tree (view layer, D)."""
+        cache = self.__dict__.setdefault("_newconst", {})
+        if name in cache:
+            return cache[name]
+        cache[name] = None
+        p = self.path_of(name)
+        if p is None:
+            return None
+        try:
+            from . import normal, alpha
+            import hashlib
+            pinned = alpha.table().get(name)
+            rel = os.path.relpath(p, self.root)
+            if rel in self.overlay:
+                src = self.overlay[rel]
+            else:
+                with open(p, "rb") as fh:
+                    src = fh.read().decode("utf-8", "replace")
+            if not pinned or pinned.get("__digest__") == hashlib.sha1(src.encode("utf-8")).hexdigest():
+                return None
+
+            class _Lite(object):
+                pass
+            lite = _Lite()
+            lite.tree = ast.parse(src)
+            cache[name] = normal.new_module_constants(lite, pinned) or None
+        except Exception:
+            cache[name] = None
+        return cache[name]
 
     def try_module(self, name):
         try:
